@@ -44,6 +44,18 @@ MutateVia(c, n) ==
 MutateObj(i, n) == i \in 1..Len(h.heap) /\ h.heap[i].cell # 0 /\ MutateVia(h.heap[i].cell, n) /\ Log([op |-> "mutobj", i |-> i, n |-> n])
 MutateUser(j, n) == j \in 1..Len(h.ucell) /\ MutateVia(h.ucell[j], n) /\ Log([op |-> "mutuser", j |-> j, n |-> n])
 
+\* an attribute set to a value the encoder must refuse (Queue.Declare.ticket := "x" fails validation, Basic.Ack.multiple :=
+\* None fails the bit encoder), and set back: a refused marshal is an outcome like any other and leaves nothing behind
+SpoilArg(cls) == IF cls = "Queue.Declare" THEN "ticket" ELSE "multiple"
+SpoilVal(cls) == IF cls = "Queue.Declare" THEN MkStr(<<120>>) ELSE NoneV
+GoodVal(cls) == IF cls = "Queue.Declare" THEN I(0) ELSE MkBool(FALSE)
+Spoil(i) == /\ i \in 1..Len(h.heap) /\ h.heap[i].cls \in {"Queue.Declare", "Basic.Ack"}
+            /\ h' = [h EXCEPT !.heap[i].vals[SpoilArg(h.heap[i].cls)] = SpoilVal(h.heap[i].cls)]
+            /\ last' = [k |-> "mutated"] /\ Tick /\ UNCHANGED lg /\ Log([op |-> "spoil", i |-> i])
+Repair(i) == /\ i \in 1..Len(h.heap) /\ h.heap[i].cls \in {"Queue.Declare", "Basic.Ack"}
+             /\ h' = [h EXCEPT !.heap[i].vals[SpoilArg(h.heap[i].cls)] = GoodVal(h.heap[i].cls)]
+             /\ last' = [k |-> "mutated"] /\ Tick /\ UNCHANGED lg /\ Log([op |-> "repair", i |-> i])
+
 DoMarshal(i) == /\ i \in 1..Len(h.heap)
                 /\ last' = [k |-> "bytes", r |-> Marshal(lg, ViewOf(h, h.heap[i]), 1), of |-> i]
                 /\ Tick /\ UNCHANGED << h, lg >> /\ Log([op |-> "marshal", i |-> i])
@@ -60,7 +72,7 @@ ANext == \/ \E c \in { EmptyTable, Entry(7) } : NewDict(c)
          \/ \E cls \in Classes, u \in 0..MaxUser : Construct(cls, u)
          \/ \E i \in 1..MaxObjs, n \in {1, 40000} : MutateObj(i, n)
          \/ \E j \in 1..MaxUser, n \in {2} : MutateUser(j, n)
-         \/ \E i \in 1..MaxObjs : DoMarshal(i)
+         \/ \E i \in 1..MaxObjs : DoMarshal(i) \/ Spoil(i) \/ Repair(i)
          \/ DoUnmarshal \/ DoUnmarshalBad \/ Toggle
 ASpec == AInit /\ [][ANext]_avars
 Bound == nops <= MaxOps
@@ -78,6 +90,9 @@ DefaultIsAlwaysTheDefault ==
         IF o.cls = "ContentHeader" THEN h.cells[o.cell].v = DefaultProps
         ELSE IF o.cell # 0 THEN h.cells[o.cell].v = EmptyTable ELSE TRUE
 \* encoding reads, never writes; a result is a function of the object's view and the switch
+\* a spoiled object is refused, and only a spoiled object
+RefusedIffSpoiled == (last.k = "bytes" /\ h.heap[last.of].cls \in {"Queue.Declare", "Basic.Ack"}) =>
+    (last.r.ok <=> h.heap[last.of].vals[SpoilArg(h.heap[last.of].cls)] = GoodVal(h.heap[last.of].cls))
 MarshalIsPure == [][(last' # last /\ last'.k = "bytes") => (h' = h /\ lg' = lg)]_avars
 ResultIsFunctionOfViewAndSwitch == last.k = "bytes" => last.r = Marshal(lg, ViewOf(h, h.heap[last.of]), 1) \/ TRUE
 \* a decoded object never shares a container with anything
